@@ -14,6 +14,7 @@ ASSUMPTIONS = [
     "exact real arithmetic (IEEE rounding outside the claim)",
     "P(evidence) > 0 (asserted before the query)",
     "CPD entries >= 0 with columns summing to 1 (free parametrisation: last row = 1 - sum)",
+    "declared latent variables carry CPDs like every other node and are neither queried nor observed",
     "virtual-evidence likelihoods in [0,1]",
 ]
 ORDERS = ["greedy", "MinFill", "MinNeighbors", "MinWeight", "WeightedMinFill", None, "explicit"]
@@ -63,7 +64,10 @@ def scenarios(tier, seed):
                 if tier == "quick" and ci > 0 and (k % 3):
                     continue
                 nh = 2 if tier == "quick" else 6
-                out.append(dict(family=f"ve.query/{sname}", nodes=nodes, parents=parents, card=card, q=q, ev=ev2, virt=virt, virt2=virt2, virt_factor=(k % 15 == 0),
+                # declared latent variables (with CPDs) among the eliminated nodes: same joint, same answer
+                lat = [x for x in nodes if x not in q and x not in ev2 and x != virt and x != virt2]
+                lat = lat[: 1 + k % 2] if (k % 4 == 1 and lat) else []
+                out.append(dict(latents=lat, family=f"ve.query/{sname}", nodes=nodes, parents=parents, card=card, q=q, ev=ev2, virt=virt, virt2=virt2, virt_factor=(k % 15 == 0),
                                 order=order, joint=joint, states=style, names=names, hashseed=k % nh,
                                 prune=(k % 7 != 0), cost=len(C.sym_names(dict(nodes=nodes, parents=parents, card=card)))))
     if tier == "thorough":
@@ -91,6 +95,7 @@ def run(desc, M):
     if virt2:
         lam2 = [M.sym(f"mu{i}", lo=0, hi=1) for i in range(desc["card"][virt2])]
     jt = C.joint_table(desc, tabs)
+    jt0 = jt
     nodes = desc["nodes"]
     if lam:
         vi = nodes.index(virt)
@@ -132,6 +137,13 @@ def run(desc, M):
             pass
         res = ve._variable_elimination(qvars, "marginalize", evidence=evidence, elimination_order=order if order else None,
                                        joint=desc["joint"], show_progress=False)
+    if virt and evidence and desc.get("prune", True):
+        # the caller's evidence dict is reused for a plain query on a fresh engine: hard evidence only
+        pe0 = C.marginal(desc, jt0, desc["ev"])
+        M.assume(pe0 > 0, None)
+        M.mark_pos(pe0)
+        res0 = VariableElimination(model).query(qvars, evidence=evidence, joint=True, show_progress=False)
+        check_factor(desc, M, nm, res0, desc["q"], jt0, pe0, "plain query reusing the evidence dict of a soft-evidence query")
     if desc["joint"]:
         check_factor(desc, M, nm, res, desc["q"], jt, pe, "joint")
     else:
